@@ -21,6 +21,7 @@ DEFAULT = dict(
                       # started under one awaiter and continued / completed under another)
     p_sticky=0.0,     # a context whose fault is PERSISTENT: once its pause() (or resume()) has raised, every later pause() call on it
                       # (by the scheduler or by the with block's __exit__, e.g. during generator.close()) raises too
+    p_ctx_stack=0.0,  # 2-3 directly nested AsyncContexts whose pause() (or resume()) faults fire at the SAME suspension / reactivation
     p_vary_bad=0.0,   # params.vary_bad: non-future leaves cycle through 12345, 0, '', False, 0.0, b'', 'abc'      # a yield of a container of stored handles whose very same container object is yielded a second time
 )
 
@@ -121,6 +122,32 @@ class Gen:
         if fault is None and c["p_exit_fault"] > 0 and self.r.random() < c["p_exit_fault"]:
             fault = {"exit": self.ferr()}
         return {"async": [self.ncid, fault]}
+
+    def ctx_stack(self, depth, vals, hands, bd):
+        """a stack of 2-3 contexts entered together (no suspension in between, so their scheduler-driven pause()/resume()
+        counts stay equal) with faults scripted for the same call number: several pause() - or resume() - calls raise
+        within ONE _pause_contexts / _resume_contexts; the innermost body suspends on batch items often enough"""
+        c = self.c
+        n = 2 if bd >= 1 else self.r.choice([2, 2, 3])
+        kind = self.r.choice(["pause", "pause", "resume", "mixed"])
+        k = self.r.choice([1, 1, 1, 2])
+        ctxs = []
+        for _ in range(n):
+            self.ncid += 1
+            fault = None
+            if self.r.random() < 0.85:
+                kd = kind if kind != "mixed" else self.r.choice(["pause", "resume"])
+                fault = {kd: [k, self.ferr()]}
+            ctxs.append({"async": [self.ncid, fault]})
+        body = []
+        for _ in range(k):
+            x = self.fx()
+            body.append({"op": "yield", "x": x, "s": {"new": {"item": [self.r.randrange(c["nkinds"]), self.r.randrange(c["nkeys"]), self.act()]}}})
+            vals.append(x)
+        body += self.block(depth, vals, hands, self.r.randrange(0, 2), False, bd + n)
+        for cx in reversed(ctxs):
+            body = [{"op": "with", "c": cx, "body": body}]
+        return body[0]
 
     def retexpr(self, vals):
         if not vals or self.r.random() < 0.1:
@@ -231,6 +258,9 @@ class Gen:
                 m = {"v": "m%d" % self.ncid, "c": {"async": [self.ncid, None]}}
                 manual.append(m)
                 out.append({"op": "enter", "v": m["v"], "c": m["c"]})
+            if c["p_ctx_stack"] > 0 and bd < 2 and self.r.random() < c["p_ctx_stack"]:
+                out.append(self.ctx_stack(depth, vals, hands, bd))
+                continue
             r = self.r.random()
             acc = 0.0
 
@@ -385,7 +415,8 @@ class Gen:
 # ------------------------------------------------------------------ statistics over an AST
 def stats(case):
     s = dict(tasks=0, items=0, yields=0, syncs=0, withs=0, tries=0, raises=0, depth=0, old=0, dicts=0, nested=0,
-             item_faults=0, bad=0, lazy=0, errfut=0, reads=0, nonasync=0, ctx_faults=0, overrides=0, kinds=set(), shared=0, sticky=0)
+             item_faults=0, bad=0, lazy=0, errfut=0, reads=0, nonasync=0, ctx_faults=0, overrides=0, kinds=set(), shared=0, sticky=0,
+             fault_stacks=0)
     uses = {}           # handle -> set of task bodies (by identity) that await it
     cur_body = [None]
 
@@ -454,6 +485,12 @@ def stats(case):
                     s["ctx_faults"] += 1
                     if c["async"][1].get("sticky"):
                         s["sticky"] += 1
+                    # a directly enclosed context with a fault of the same kind and call number: both fire together
+                    b = x["body"]
+                    f1 = c["async"][1]
+                    f2 = b[0]["c"].get("async", [0, None])[1] if len(b) == 1 and b[0]["op"] == "with" else None
+                    if f2 and any(kd in f2 and f2[kd][0] == f1[kd][0] for kd in f1 if kd in ("pause", "resume")):
+                        s["fault_stacks"] += 1
                 block(x["body"], d)
             elif op == "try":
                 s["tries"] += 1
